@@ -41,6 +41,7 @@ def run(rep: Report, tier: str) -> None:
 	rule_f(rep, idx)
 	rule_g(rep, idx)
 	rule_h(rep, idx)
+	rule_i(rep, idx)
 
 
 def rule_a(rep: Report, idx: SourceIndex) -> None:
@@ -554,3 +555,55 @@ def rule_h(rep: Report, idx: SourceIndex) -> None:
 		r.skip('slices', None, 'no slice found in the path / query modules')
 	else:
 		r.ok('slices-scanned', None, message=f'{n_slices} slices scanned')
+
+
+def rule_i(rep: Report, idx: SourceIndex) -> None:
+	"""`relativefy(starts)` removes a leading path by SPLITTING the text at `starts` (DSN.relativefy: `origin.split(starts)[1]`): it is exact only when
+	`starts` cannot occur a second time in the path. A full path of an ancestor entry qualifies (it begins at the root, which occurs once); a bare tag
+	does not — tags recur along a path (`block` inside `block`, `expr` inside `or_expr`), and the text between the first and the second occurrence is
+	all that is kept: pluck('block.if_stmt.block.pass_stmt') then returns the entry of `if_stmt`. In the addressing layer the argument must be a full path."""
+	r = rep.rule('C10/relative-paths-by-full-path-prefix', 'while DSN.relativefy splits the path text at its argument, every relativefy call of the addressing layer (rogw/tranp/syntax/**) passes a full path (…full_path / …origin / a path parameter), never a bare tag or name', floor=2)
+	dm = idx.mod(DSN_PY)
+	rf = dm.func('DSN.relativefy')
+	if rf is None:
+		r.skip('DSN.relativefy', (DSN_PY, 1), 'DSN.relativefy vanished')
+		return
+	params = [p_ for p_ in rf.params() if p_ not in ('cls', 'self')]
+	splits = [c_ for c_ in nodes(rf.node, ast.Call) if isinstance(c_.func, ast.Attribute) and c_.func.attr in ('split', 'partition', 'replace', 'find', 'index') and c_.args and isinstance(c_.args[0], ast.Name) and c_.args[0].id in params[1:2]]
+	if not splits:
+		r.ok('DSN.relativefy', rf.where, message='DSN.relativefy no longer cuts the path by searching for its argument (an occurrence further down the path cannot matter)')
+		return
+	r.ok('DSN.relativefy:splits-at-argument', rf.where, message=f'`{unparse(splits[0])}`: exact only for arguments that occur once')
+	n_sites = 0
+
+	def outer_params(m, q: str) -> set[str]:
+		"""parameters of the function and of the functions it is nested in (`A.f.<locals>.g` sees the parameters of `A.f`)"""
+		out: set[str] = set()
+		parts = q.split('.<locals>.')
+		for i in range(1, len(parts) + 1):
+			g = m.functions.get('.<locals>.'.join(parts[:i]))
+			if g is not None:
+				out |= set(g.params())
+		return out
+	for rel in idx.glob('rogw/tranp/syntax/**/*.py'):
+		m = idx.mod(rel)
+		for q, f in m.functions.items():
+			if q == 'EntryPath.relativefy':
+				continue
+			for c_ in [n for n in walk_no_nested(f.node) if isinstance(n, ast.Call)]:
+				if not (isinstance(c_.func, ast.Attribute) and c_.func.attr == 'relativefy'):
+					continue
+				arg = c_.args[1] if unparse(c_.func.value).endswith('DSN') and len(c_.args) >= 2 else (c_.args[0] if c_.args else None)
+				if arg is None:
+					continue
+				n_sites += 1
+				txt = unparse(arg)
+				key = f'{q}:relativefy({txt[:40]})'
+				if txt.endswith(('full_path', '_full_path', '.origin')) or (isinstance(arg, ast.Name) and arg.id in outer_params(m, q) and any(w in arg.id for w in ('via', 'path', 'starts'))):
+					r.ok(key, (rel, c_.lineno))
+				elif txt.endswith(('.name', '.tag', '.domain_name', '.symbol')) or (isinstance(arg, ast.Constant) and isinstance(arg.value, str) and '.' not in arg.value):
+					r.violate(key, (rel, c_.lineno), f'{q} removes the leading `{txt}` — a single tag — with relativefy, which cuts the path TEXT at every occurrence of its argument and keeps what lies between the first two: when the tag occurs again further down (`block.if_stmt.block.pass_stmt`, `expr` in `or_expr`) the relative path is truncated and the lookup returns an ancestor of the addressed entry, or NodeNotFound for a path full_pathfy lists; strip the root by elements (shift(1))', unparse(c_))
+				else:
+					r.skip(key, (rel, c_.lineno), f'argument `{txt[:60]}` is neither recognisably a full path nor a bare tag')
+	if n_sites == 0:
+		r.skip('relativefy-sites', None, 'no relativefy call found in rogw/tranp/syntax')
